@@ -123,6 +123,9 @@ def orswotOps : CrdtOps OS OOp where
   resetRemove := some Orswot.resetRemove
   eq := some (fun a b => some (decide (a = b)))
   spec := specOrswot
+  opDot := fun op => match op with
+    | .add d _ => some (showDot d)
+    | .rm _ _ => none
   ok := fun U K op => match op with
     | .add d _ => U.all (fun o' => match o' with
         | .add d' ms' => !(d'.actor = d.actor && d'.counter < d.counter) || K.contains (.add d' ms')
